@@ -166,19 +166,26 @@ Proof.
   intros [[x y]|]; cbn [compress length]; [now rewrite be_bytes_length|reflexivity].
 Qed.
 
-(* a lifted point satisfies the curve equation by construction *)
-Lemma lift_x_on_curve : forall x P, lift_x x = Some P -> fst P = x /\
-  fmul (snd P) (snd P) = fadd (fmul (fmul x x) x) 7 \/ fmul (secp_p - snd P) (secp_p - snd P) = fadd (fmul (fmul x x) x) 7.
+Lemma some_pair_inj {A B : Type} (a a' : A) (b b' : B) :
+  Some (a, b) = Some (a', b') -> a = a' /\ b = b'.
+Proof. intros H. inversion H. split; reflexivity. Qed.
+
+(* a lifted point satisfies the curve equation by construction (up to the sign choice) *)
+Lemma lift_x_sound : forall x x' y, lift_x x = Some (x', y) ->
+  x' = x /\ 0 <= x < secp_p /\
+  exists y0, fmul y0 y0 = fadd (fmul (fmul x x) x) 7 /\ (y = y0 \/ y = secp_p - y0).
 Proof.
-  intros x P. unfold lift_x.
-  destruct ((0 <=? x) && (x <? secp_p)); [|discriminate].
-  set (c := fadd (fmul (fmul x x) x) 7).
-  set (y := pow_mod c ((secp_p + 1) / 4) secp_p).
-  destruct (fmul y y =? c) eqn:E; [|discriminate].
-  apply Z.eqb_eq in E. intros H. inversion H; subst P; clear H. cbn [fst snd].
-  destruct (Z.even y).
-  - left. split; [reflexivity|exact E].
-  - right. replace (secp_p - (secp_p - y)) with y by lia. exact E.
+  intros x x' y. unfold lift_x.
+  destruct ((0 <=? x) && (x <? secp_p)) eqn:Hr; [|discriminate].
+  apply andb_true_iff in Hr. destruct Hr as [Hr1 Hr2].
+  apply Z.leb_le in Hr1. apply Z.ltb_lt in Hr2.
+  remember (fadd (fmul (fmul x x) x) 7) as c eqn:Hc.
+  remember (pow_mod c ((secp_p + 1) / 4) secp_p) as y0 eqn:Hy0.
+  destruct (fmul y0 y0 =? c) eqn:E; [|discriminate].
+  apply Z.eqb_eq in E. intros H. apply some_pair_inj in H. destruct H as [H1 H2].
+  subst x' y.
+  split; [reflexivity|]. split; [lia|]. exists y0. split; [exact E|].
+  destruct (Z.even y0); [left|right]; reflexivity.
 Qed.
 
 (* ---- vectors ---- *)
@@ -219,4 +226,10 @@ Proof. vm_compute. reflexivity. Qed.
 Example decompress_zero : decompress (2 :: repeat 0 32) = None.
 Proof. vm_compute. reflexivity. Qed.
 Example decompress_overflow : decompress (2 :: be_bytes 32 (secp_p + 1)) = None.
+Proof. vm_compute. reflexivity. Qed.
+
+(* the group order: n*G is the point at infinity, (n-1)*G = -G  (about 30 s each in the VM) *)
+Example mul_n : pt_mul secp_n secp_G = None.
+Proof. vm_compute. reflexivity. Qed.
+Example mul_n_minus_1 : pt_mul (secp_n - 1) secp_G = pt_neg secp_G.
 Proof. vm_compute. reflexivity. Qed.
